@@ -1,0 +1,16 @@
+//go:build verif
+
+package gnosis
+
+import (
+	"github.com/shutter-network/rolling-shutter/rolling-shutter/medley/identitypreimage"
+)
+
+// Accessor for the verification harness (family gossip, property C03). Add-only. The handler
+// constructors are in zz_verif_gnosisslot.go (VerifGnosisSlotHandlers).
+
+// VerifGossipIdentitiesHash is computeIdentitiesHash (what triggerDecryption stores in
+// current_decryption_trigger.identities_hash).
+func VerifGossipIdentitiesHash(identityPreimages []identitypreimage.IdentityPreimage) []byte {
+	return computeIdentitiesHash(identityPreimages)
+}
